@@ -636,6 +636,8 @@ class Resolved(object):
 
 
 def _scalar_reason(name, v, rule, tc):
+    if isinstance(v, int) and not isinstance(v, bool) and abs(v) > 2 ** 1023:
+        return "unrepresentable-" + name          # a Python integer that is not a C double: no BLAS operation to perform
     if isinstance(v, bool) or isinstance(v, (int, float)):
         return None
     if isinstance(v, complex):
@@ -1362,7 +1364,7 @@ def _mutate_illegal(rng, call):
     if sp.types == "d":
         menu += ["tc-all-z"]
     if sp.scalars:
-        menu += ["complex-scalar", "complex-scalar", "nonnumeric-scalar"]
+        menu += ["complex-scalar", "complex-scalar", "nonnumeric-scalar", "huge-int-scalar"]
     if sp.flags:
         menu += ["bad-flag", "bad-flag"]
     if any(k in ("inc", "pinc") for _, k in sp.sig):
@@ -1393,6 +1395,10 @@ def _mutate_illegal(rng, call):
                 _retype(call["bufs"][b], "d")
         call["args"][s] = complex(rng.uniform(-2, 2), rng.choice([0.0, 1.0, rng.uniform(-2, 2)]))
         what = "complex-" + s
+    elif kind == "huge-int-scalar":
+        s = rng.choice(sp.scalars)
+        call["args"][s] = rng.choice([10 ** 400, -10 ** 400, 2 ** 2000])
+        what = "huge-int-" + s
     elif kind == "nonnumeric-scalar":
         s = rng.choice(sp.scalars)
         call["args"][s] = rng.choice(["1.0", None, [1.0], (2.0,)])
